@@ -1,6 +1,7 @@
 package rules
 
 import (
+	"slipcheck/lenflow"
 	"fmt"
 	"go/token"
 	"sort"
@@ -192,6 +193,105 @@ func runC11(c *core.Ctx, r *core.Reporter) {
 	c11order(c, r)
 	c11insert(c, r)
 	c11alias(c, r)
+	c11propagate(c, r)
+}
+
+// c11propagate: a combination added to a class's own method must reach the classes that inherit from it.
+func c11propagate(c *core.Ctx, r *core.Reporter) {
+	const rule = "C11.propagate"
+	r.Rule(rule, "in every function that both stores a new combination list into a Method.Combinations field and walks all classes to update inheritors (Package.AllClasses), each such store is followed on every path to the return by the walk over all classes: a combination added to a flavor without updating the flavors already built on it makes the daemons run depend on the definition order", 1)
+	all := c.LookupFunc("", "Package.AllClasses")
+	if all == nil {
+		r.Undecided(rule, "slip.(Package).AllClasses", "-", "anchor does not resolve")
+		return
+	}
+	allFn := c.SSAFunc(all)
+	an := lenflow.New(c)
+	for _, fn := range c.ModuleFuncs() {
+		if takesTestingT(fn) || fn.Blocks == nil {
+			continue
+		}
+		walkBlocks := map[*ssa.BasicBlock]bool{}
+		var stores []*ssa.Store
+		for _, b := range fn.Blocks {
+			for _, in := range b.Instrs {
+				switch x := in.(type) {
+				case *ssa.Call:
+					if x.Call.StaticCallee() == allFn {
+						walkBlocks[b] = true
+					}
+				case *ssa.Store:
+					if fa, ok := x.Addr.(*ssa.FieldAddr); ok && fieldName(fa) == "Combinations" && isFieldOf(fa, core.SlipPath, "Method", "Combinations") {
+						stores = append(stores, x)
+					}
+				}
+			}
+		}
+		if len(walkBlocks) == 0 || len(stores) == 0 {
+			continue
+		}
+		g := core.ComputeGuards(fn, an.NoReturn)
+		for i, st := range stores {
+			// branch outcomes known at the store: conditions on the same SSA value are followed consistently
+			known := map[ssa.Value]bool{}
+			for f := range g.Facts(st.Block()) {
+				known[f.If.Cond] = f.Branch
+			}
+			escaped := false
+			seen := map[*ssa.BasicBlock]bool{}
+			var walk func(b *ssa.BasicBlock, first bool)
+			walk = func(b *ssa.BasicBlock, first bool) {
+				if seen[b] && !first {
+					return
+				}
+				seen[b] = true
+				if walkBlocks[b] && !first {
+					return
+				}
+				if g.Dead[b] {
+					return
+				}
+				last := b.Instrs[len(b.Instrs)-1]
+				switch x := last.(type) {
+				case *ssa.Return:
+					escaped = true
+					return
+				case *ssa.If:
+					if br, ok := known[x.Cond]; ok {
+						if br {
+							walk(b.Succs[0], false)
+						} else {
+							walk(b.Succs[1], false)
+						}
+						return
+					}
+				}
+				for _, s := range b.Succs {
+					walk(s, false)
+				}
+			}
+			// the walk may sit in the store's own block after the store
+			afterInSame := false
+			for _, in := range st.Block().Instrs {
+				if in == ssa.Instruction(st) {
+					afterInSame = true
+					continue
+				}
+				if call, ok := in.(*ssa.Call); ok && afterInSame && call.Call.StaticCallee() == allFn {
+					afterInSame = false
+					seen[st.Block()] = true
+					goto decided
+				}
+			}
+			walk(st.Block(), true)
+		decided:
+			key := core.SSAName(fn)
+			if i > 0 {
+				key = fmt.Sprintf("%s#%d", key, i+1)
+			}
+			r.Decide(!escaped, rule, key, c.Pos(st.Pos()), fmt.Sprintf("a path from the store to the return avoids the walk over all classes: %v", escaped))
+		}
+	}
 }
 
 func c11order(c *core.Ctx, r *core.Reporter) {
